@@ -128,6 +128,16 @@ func TestC01(t *testing.T) {
 			} else {
 				o.Net, o.Addr = addr.Network(), []byte(addr.String())
 			}
+			if err != nil {
+				// a rejected line leaves nothing behind: asked again, the client still says no
+				a2, err2 := cl.Start()
+				o.RetryOK = err2 == nil
+				if a2 != nil && !(reflect.ValueOf(a2).Kind() == reflect.Ptr && reflect.ValueOf(a2).IsNil()) {
+					o.RetryAddr = a2.Network() + " " + a2.String()
+				}
+				o.RetryProtocol = string(cl.Protocol())
+				o.RetryRC = cl.ReattachConfig() != nil
+			}
 			if err == nil && addr != nil && !o.AddrTypedNil {
 				o.Protocol = string(cl.Protocol())
 				o.Version = cl.NegotiatedVersion()
